@@ -421,8 +421,12 @@ def run_real(wu, case, op='parse', after=None, keep_caches=False):
         case.real = 'timeout'
     # model request
     encname = {'utf-8': 'utf8', 'iso8859-1': 'latin1', 'ascii': 'ascii'}.get(codecs.lookup(case.encoding).name, 'table')
-    if PRINTABLE_ASCII.encode(case.encoding) != PRINTABLE_ASCII.encode('ascii'):
-        encname = 'utf8'        # UTF-16/32, HZ, UTF-7 documents: the (repaired) code percent-encodes as UTF-8
+    try:
+        if PRINTABLE_ASCII.encode(case.encoding) != PRINTABLE_ASCII.encode('ascii'):
+            encname = 'utf8'        # UTF-16/32, HZ, UTF-7 documents: the (repaired) code percent-encodes as UTF-8
+    except (LookupError, UnicodeError):
+        case.skip = True            # cp864, idna, bytes-to-bytes codecs …: the probe itself raises; oracle only
+        encname = 'utf8'
     enct = []
     if encname == 'table':
         # the lower-cased scheme candidate can re-enter the text ('.' in scheme): its characters too
@@ -855,7 +859,10 @@ class Spec:
             if rng.random() < 0.6:
                 self.pw = gen_userinfo(rng, password=True)
         r = rng.random()
-        if r < 0.4:
+        if r < 0.03:
+            self.hostkind = 'name'
+            self.host = long_host(rng).split(':')[0]
+        elif r < 0.4:
             self.hostkind = 'name'
             labels = [rand_text(rng, rng.randrange(1, 8), ALNUM + '-') for _ in range(rng.randrange(1, 4))]
             self.host = '.'.join(labels) + rng.choice(['', '', '', '.'])
@@ -1034,8 +1041,33 @@ def mutate(rng, s):
 SOUP = ['h', 't', 'p', ':', '/', '.', '@', '[', ']', '%', '0', 'x']
 
 
+def long_host(rng):
+    """host names around the 253/255 total-length boundary, every label <= 63"""
+    total = rng.choice([250, 252, 253, 254, 255, 256, 300, 1000])
+    style = rng.choice(['63', 'one', 'mixed', 'idn'])
+    if style == '63':
+        labels = ['a' * 63] * (total // 64) + (['b' * (total % 64 - 1)] if total % 64 > 1 else [])
+    elif style == 'one':
+        labels = [rng.choice('abcxyz019')] * ((total + 1) // 2)
+    elif style == 'idn':
+        labels = [rng.choice(['b\u00fccher', '\u6587\u5b57', 'ex\u00e4mple', 'a'])] * (total // 8)
+    else:
+        labels = []
+        n = 0
+        while n < total:
+            k = rng.randrange(1, 64)
+            labels.append(rand_text(rng, k, ALNUM))
+            n += k + 1
+    h = '.'.join(labels)
+    if style != 'idn':
+        h = h[:total].rstrip('.')
+    return h + rng.choice(['', '', '.', ':8080'])
+
+
 def gen_malformed(rng):
     r = rng.random()
+    if r < 0.05:
+        return rng.choice(['http://', 'https://u@', '//', '']) + long_host(rng) + rng.choice(['', '/', '/p?q'])
     if r < 0.35:
         return ''.join(rng.choice(SOUP) for _ in range(rng.randrange(0, 12)))
     if r < 0.5:
@@ -1284,6 +1316,30 @@ def ref_rewrite(wu, info, hash_fragment, session_id):
         url = info.url + ('&' if info.query else '?') + '_escaped_fragment_=' + info.fragment[1:]
         info = wu.parse_url_or_log(url) or info
     return info
+
+
+def all_codecs():
+    """every codec name Python knows: the alias table plus the codecs without an alias"""
+    import encodings.aliases
+    names = set(encodings.aliases.aliases.values()) | {
+        'idna', 'punycode', 'raw_unicode_escape', 'unicode_escape', 'rot_13', 'base64_codec', 'hex_codec', 'zlib_codec',
+        'bz2_codec', 'quopri_codec', 'uu_codec', 'undefined', 'mbcs', 'oem', 'utf_8_sig', 'charmap', 'unicode_internal'}
+    out = []
+    for n in sorted(names):
+        try:
+            codecs.lookup(n)
+        except LookupError:
+            continue
+        out.append(n)
+    return out
+
+
+ALL_CODEC_URLS = ['http://example.com/my file.html', 'http://example.com/Docs/\u00fcber.html?x=\u00fc.y', 'http://h/%41%zz?a b#c d',
+                  'http://u%20s:p@h/\u00e9/~x+y?\u6587=1', 'http://h/a\\b?c|d', 'http://h/']
+
+
+def all_codec_cases():
+    return [Case(u, 'http', n, 'all-codecs') for n in all_codecs() for u in ALL_CODEC_URLS]
 
 
 SWEEP_CODECS = ['latin-1', 'cp1252', 'iso8859-15', 'cp1251', 'koi8-r', 'iso8859-2', 'cp1250', 'iso8859-5', 'iso8859-7', 'cp437', 'cp850',
